@@ -155,9 +155,15 @@ func TestVerifC05(t *testing.T) {
 		scns = append(scns, c05VciScn("preauth-3-mixed", "mem", true, good, wrong, good))
 	}
 	for _, s := range scns {
-		n, cut := w.Explore(level, s, maxRuns)
+		// quick tier: scenarios of three and more requests get a smaller budget (the large ones are enumerated in the thorough tier)
+		budget := maxRuns
+		if !thorough && len(s.Threads) >= 3 && budget > 700 {
+			budget = 700
+		}
+		n, cut := w.Explore(level, s, budget)
 		if cut {
-			w.Sample(level, s, maxRuns, rng.Intn)
+			// too many schedules to enumerate: add random walks through the schedule tree
+			w.Sample(level, s, budget/2, rng.Intn)
 		}
 		w.Count(s, n, cut)
 	}
